@@ -20,6 +20,7 @@ type taintResult struct {
 
 type taintSummary struct {
 	resultTainted bool
+	resultIdx     map[int]bool // which results (of a multi-result function) depend on the source
 	mutatesParam  map[int]bool // content of param j is changed depending on the source
 	sinkHit       []string     // description of cache sinks reached
 }
@@ -44,15 +45,19 @@ func (tc *taintCtx) summary(fn *ssa.Function, param int) *taintSummary {
 	tc.running[key] = true
 	res := tc.analyse(fn, []ssa.Value{fn.Params[param]})
 	delete(tc.running, key)
-	s := &taintSummary{mutatesParam: map[int]bool{}}
+	s := &taintSummary{mutatesParam: map[int]bool{}, resultIdx: map[int]bool{}}
 	for _, ret := range returnsOf(fn) {
-		for _, r := range ret.Results {
+		for i, r := range ret.Results {
 			if res.val[r] {
 				s.resultTainted = true
+				s.resultIdx[i] = true
 			}
 		}
 		if res.blk[ret.Block()] && len(ret.Results) > 0 {
 			s.resultTainted = true
+			for i := range ret.Results {
+				s.resultIdx[i] = true
+			}
 		}
 	}
 	for j, p := range fn.Params {
@@ -128,6 +133,7 @@ func (tc *taintCtx) analyse(fn *ssa.Function, sources []ssa.Value) *taintResult 
 		}
 		return addr
 	}
+	tupleTaint := map[ssa.Value]map[int]bool{}
 	for changed := true; changed; {
 		changed = false
 		// control taint
@@ -241,7 +247,18 @@ func (tc *taintCtx) analyse(fn *ssa.Function, sources []ssa.Value) *taintResult 
 								continue
 							}
 							s := tc.summary(callee, j)
-							if s.resultTainted && isVal && mark(v, in) {
+							if s.resultTainted && isVal && s.resultIdx != nil && callee.Signature.Results().Len() > 1 {
+								// a tuple: only the results that depend on the source
+								if tupleTaint[v] == nil {
+									tupleTaint[v] = map[int]bool{}
+								}
+								for i := range s.resultIdx {
+									if !tupleTaint[v][i] {
+										tupleTaint[v][i] = true
+										changed = true
+									}
+								}
+							} else if s.resultTainted && isVal && mark(v, in) {
 								changed = true
 							}
 							for k := range s.mutatesParam {
@@ -263,7 +280,7 @@ func (tc *taintCtx) analyse(fn *ssa.Function, sources []ssa.Value) *taintResult 
 						changed = true
 					}
 				case *ssa.Extract:
-					if res.val[x.Tuple] && mark(x, in) {
+					if (res.val[x.Tuple] || tupleTaint[x.Tuple][x.Index]) && mark(x, in) {
 						changed = true
 					}
 				case *ssa.UnOp:
